@@ -551,6 +551,24 @@ def rule_callsites(ck):
             ck.note('C02-D4: %s `%s` bins generic edges (neither magnitude nor coordinate vocabulary): no obligation'
                     % (f.loc(call), u(call)[:70]))
             continue
+        # the kernel takes its round-off tolerance from the dtype of the points it is given: the stored values go in as they are
+        # stored - a conversion on the way (float32 magnitudes up-cast to float64, `astype`, `float(...)`) bins 4.1f with the
+        # tolerance of a double and drops it one bin below the edge it sits on
+        pts = kw(call, 'p', 0)
+        if pts is not None and role in ('mag', 'coord'):
+            pe = expander(P, f).expand(pts)
+            conv = None
+            for x in ast.walk(pe):
+                if isinstance(x, ast.Call):
+                    nm = call_name(x) or ''
+                    if (nm in ('numpy.ascontiguousarray', 'numpy.asarray', 'numpy.array', 'numpy.asanyarray', 'numpy.asfarray', 'numpy.require') and kw(x, 'dtype', 1) is not None) \
+                            or (isinstance(x.func, ast.Attribute) and x.func.attr == 'astype') \
+                            or nm in ('numpy.float64', 'numpy.float32', 'numpy.double', 'numpy.float_', 'builtins.float', 'numpy.float16'):
+                        conv = x
+            oo = ck.ob('C02-D4.asstored', f, pts, call)
+            (oo.fail('the values binned here went through `%s`: bin1d_vec derives its tolerance from the dtype it is handed, so single-precision '
+                     'values converted to another type are binned with the wrong tolerance (a float32 4.1 lies 1e-7 below the edge 4.1 and '
+                     'falls into the bin below it)' % u(conv)[:80]) if conv is not None else oo.ok('handed to the kernel in their stored type'))
         o = ck.ob('C02-D4.' + role, f, call, call)
         if role == 'mag':
             n['mag'] += 1
@@ -618,7 +636,16 @@ def rule_generators(ck):
     scale = e.right
     N = sym.Normalizer()
     start, end, h = f.positional_params[:3]
-    o.ok('arange(a, b, d) / scale')
+    # the nodes are computed in floating point: the scaled step is whole only when the step has no more decimals than the scale covers,
+    # and an integer dtype makes numpy truncate the first two nodes and step by their difference (5.0, 5.25 -> 50, 52 -> 5.0, 5.2, ...)
+    dt = kw(e.left, 'dtype', 3)
+    dtxt = (call_name(dt) if isinstance(dt, ast.Call) else u(dt)) if dt is not None else None
+    if dt is not None and not (dtxt in ('float', 'builtins.float', 'numpy.float64', 'numpy.double', "'float64'", "'f8'", "'d'", 'None')):
+        o.fail('the integer grid is built with dtype=%s: numpy.arange then truncates start and start+step to that type and uses their '
+               'difference as the step, so a step with more decimals than the scale covers (5.0 with 0.25: scaled step 2.5) silently '
+               'becomes another spacing with the same number of edges' % dtxt)
+    else:
+        o.ok('arange(a, b, d) / scale')
 
     def rounded_scaled(x, param, what):
         oo = ck.ob('C02-D5.' + what, f, x, rets[0])
